@@ -564,7 +564,7 @@ else:
 _ex(r'(\|\||&&|\?\?)=', 'K19 logical assignment operators ||= &&= ??= (missing from the precedence tables: a||=(b,c) -> a||=b,c; '
                         'not counted as side effect: void(a||=b) -> void 0)')
 _ex(r"""(-|\*|/|%)\s*("[^"\n]*"|'[^'\n]*')\s*\+\s*["'`]""", 'K18 string literal + string literal after a non-additive operator (a-"1"+"2" -> a+"12")')
-_ex(r'\bvar\s+let\b|\(\s*let\b|\blet\s*[.(`:]|function\s+let\b|\blet\s*\[[^\]]*\]\s*($|[^=\s]|=\S*=)|\bin\s+let\b|\blet\s*\n\s*\[', 'K20 `let` used as an identifier')
+_ex(r'\bvar\s+let\b|\(\s*let\s*[)\[.]|\blet\s*[.(`:]|function\s+let\b|\blet\s*\[[^\]]*\]\s*($|[^=\s]|=\S*=)|\bin\s+let\b|\blet\s*\n\s*\[', 'K20 `let` used as an identifier')
 _ex(r'class\b[^{]*\{[^}]*\basync\s*\n', 'K21 class field named async followed by a newline (parsed as async method)')
 _ex(r'\\u005[cC]|\\u\{0*5[cC]\}', 'K22a \\u005c / \\u{5c} in string literals (decoded to an unescaped backslash)')
 _ex(r'\\[23][0-7][0-7]', 'K22b legacy octal escapes \\200..\\377 in string literals (written as one raw byte: invalid UTF-8)')
@@ -630,13 +630,14 @@ def _wrap(expr):
 
 
 def precedence_matrix(ctx):
-    """every ordered pair of binary operators in both groupings; unary x binary; conditional / arrow / new / call /
-    member / optional chain / tagged template / `in` inside for(;;) combinations"""
-    exprs = []
+    """every ordered pair of binary operators in both groupings (COMPLETE in both tiers); unary x binary; conditional /
+    arrow / new / call / member / optional chain / tagged template / `in` inside for(;;) combinations (sampled in quick)"""
+    binbin = []
     for (o1, p1, a1) in BINOPS:
         for (o2, p2, a2) in BINOPS:
-            exprs.append('(a%sb)%sc' % (o1, o2))
-            exprs.append('a%s(b%sc)' % (o1, o2))
+            binbin.append('(a%sb)%sc' % (o1, o2))
+            binbin.append('a%s(b%sc)' % (o1, o2))
+    exprs = []
     for u in UNOPS:
         for (o, p, a) in BINOPS:
             exprs.append('(%sa)%sb' % (u, o))
@@ -654,23 +655,34 @@ def precedence_matrix(ctx):
                 exprs.append('a%s %sb' % (u, o) if o[0] in '+-' else 'a%s%sb' % (u, o))
     for (o, p, a) in BINOPS:
         exprs += ['(a%sb)?c:1' % o, 'a%s(b?c:1)' % o, '(a?b:c)%s1' % o, 'a?b:(c%s1)' % o, 'a?(b%sc):1' % o,
-                  '(x=>x%sb)(a)' % o, '((x=>x)%sb)' % o if False else 'a%s(x=>b)(c)' % o, '(a%sb).x' % o, '(a%sb)[0]' % o,
-                  'new(a%sb)' % o if False else '[a%sb][0]' % o, 'out((a%sb),c)' % o, '`${a%sb}`' % o, '[...[a%sb]]' % o,
+                  '(x=>x%sb)(a)' % o, 'a%s(x=>b)(c)' % o, '(a%sb).x' % o, '(a%sb)[0]' % o,
+                  '[a%sb][0]' % o, 'out((a%sb),c)' % o, '`${a%sb}`' % o, '[...[a%sb]]' % o,
                   '({x:a%sb}).x' % o, '({[a%sb]:1})' % o, '(a%sb,c)' % o, '(c,a%sb)' % o]
     progs = []
     quick = ctx.quick()
     rnd = ctx.rnd
-    # (known constructs are excluded per expression, not per batch)
-    exprs = [e for e in exprs if not excluded(_wrap(e))]
-    ok = valid_js(ctx, [_wrap(e) for e in exprs])
-    exprs = [e for e, v in zip(exprs, ok) if v]
+
+    def valid(xs):
+        # (known constructs are excluded per expression, not per batch; so are syntactically invalid members)
+        xs = [e for e in xs if not excluded(_wrap(e))]
+        ok = valid_js(ctx, [_wrap(e) for e in xs])
+        return [e for e, v in zip(xs, ok) if v]
+
+    binbin = valid(binbin)
+    exprs = valid(exprs)
     for pi, pre in enumerate(OPERANDS):
+        if quick and pi not in (0, 2) and pi != 3 + ctx.seed % 4:
+            bb = []                      # quick: the complete pair matrix under 3 of the 7 operand preambles
+        else:
+            bb = binbin
+        per = 40 if quick else 10
+        for i in range(0, len(bb), per):
+            progs.append(pre + '\n' + '\n'.join(_wrap(e) for e in bb[i:i + per]))
         ex = exprs
         if quick:
             ex = [e for e in exprs if rnd.random() < 0.06]
         for i in range(0, len(ex), 10):
-            body = '\n'.join(_wrap(e) for e in ex[i:i + 10])
-            progs.append(pre + '\n' + body)
+            progs.append(pre + '\n' + '\n'.join(_wrap(e) for e in ex[i:i + 10]))
     return progs
 
 
@@ -3574,6 +3586,117 @@ def nesting_programs(ctx):
     return out
 
 
+# ===================================================================================================
+# size-scaling lists: everything the minifier reorders or merges (var declarators, adjacent declarations, expression
+# statements, switch cases, properties, arguments, parameters, class members, else-if chains, string concatenations,
+# comma / conditional chains) with 13..60 elements and observable elements f(k)
+def scaling_programs(ctx):
+    quick = ctx.quick()
+    rnd = ctx.rnd
+    sizes = [13, 40] if quick else [13, 14, 16, 17, 25, 33, 40, 60]
+    progs = []
+    pre = 'var f=function(k){out(k);return k};\n'
+
+    def noinit_patterns(n):
+        pats = [set(), {1}, {n}, {2}, set(range(2, n + 1, 3)), set(range(1, n + 1, 2)), {n // 2}, {n - 1, n}]
+        return pats if not quick else [pats[i] for i in (1, 3, 4, 6)]
+
+    for n in sizes:
+        ks = list(range(1, n + 1))
+        for kw in ('var', 'let'):
+            for pat in noinit_patterns(n):
+                decls = ['a%d' % k if k in pat else 'a%d=f(%d)' % (k, k) for k in ks]
+                use = 'out(' + ','.join('a%d' % k for k in ks[:6] + ks[-3:]) + ')'
+                progs.append(pre + kw + ' ' + ','.join(decls) + ';' + use)
+                progs.append(pre + ';'.join(kw + ' ' + d for d in decls) + ';' + use)
+                progs.append(pre + 'function t(p){' + kw + ' ' + ','.join(decls) + ';' + use + '}t()')
+                if kw == 'var':
+                    progs.append(pre + 'function t(p){' + ';'.join(('var ' + d) if k % 3 else ('f(-%d);var %s' % (k, d)) for k, d in zip(ks, decls)) + ';' + use + '}t()')
+                    progs.append(pre + 'function t(p){for(var i=0;i<1;i++){' + ';'.join('var ' + d for d in decls) + '}' + use + '}t()')
+                if quick and kw == 'let':
+                    break
+        progs.append(pre + ';'.join('f(%d)' % k for k in ks))
+        progs.append(pre + 'function t(){' + ';'.join('f(%d)' % k for k in ks) + ';return f(0)}out(t())')
+        progs.append(pre + 'out(' + ','.join('f(%d)' % k for k in ks) + ')')
+        progs.append(pre + 'out([' + ','.join('f(%d)' % k if k % 7 else '' for k in ks) + '])')
+        progs.append(pre + 'out({' + ','.join(('p%d:f(%d)' % (k, k)) if k % 5 else ('[f(%d)]:f(-%d)' % (k, k)) for k in ks) + '})')
+        progs.append(pre + 'out({' + ','.join('"%d":f(%d)' % (k % 9, k) for k in ks) + '})')
+        progs.append(pre + 'function t(' + ','.join('p%d' % k for k in ks) + '){return p1+p%d}out(t(' % (n // 2) + ','.join('f(%d)' % k for k in ks) + '))')
+        progs.append(pre + 'function t(v){switch(v){' + ''.join('case %d:f(%d);%s' % (k, k, 'break;' if k % 4 else '') for k in ks) + 'default:f(0)}}' +
+                     ';'.join('t(%d)' % k for k in (1, 4, n // 2, n, n + 1)))
+        progs.append(pre + 'function t(v){' + 'else '.join('if(v==%d)return f(%d);' % (k, k) for k in ks) + 'return f(0)}' +
+                     'out(' + ','.join('t(%d)' % k for k in (1, 2, n // 2, n, n + 1)) + ')')
+        progs.append(pre + 'function t(v){' + ''.join('if(v==%d)return f(%d);' % (k, k) for k in ks) + 'return f(0)}' +
+                     'out(' + ','.join('t(%d)' % k for k in (1, 2, n // 2, n, n + 1)) + ')')
+        progs.append(pre + 'function t(v){' + ''.join('if(v==%d)f(%d);else ' % (k, k) for k in ks) + 'f(0)}' + ';'.join('t(%d)' % k for k in (1, n // 2, n, n + 1)))
+        progs.append(pre + 'var g=f;function t(v){return ' + ''.join('v==%d?%s(%d):' % (k, 'fg'[k % 2], k) for k in ks) + 'out(0)}out(t(1),t(%d),t(%d))' % (n, n + 1))
+        progs.append(pre + 'var x=3;out(' + '+'.join(('"s%d"' % k) if k % 4 else 'x' for k in ks) + ')')
+        progs.append(pre + 'var x=3;out(' + '+'.join("'%s'" % ('"' if k % 2 else 'q') for k in ks) + ',x+' + '+'.join('"%d"' % k for k in ks) + ')')
+        progs.append(pre + 'out((' + ','.join('f(%d)' % k for k in ks) + '))')
+        progs.append(pre + 'out(' + '&&'.join('f(%d)' % k for k in ks) + ',' + '||'.join('f(-%d)' % k for k in ks) + ')')
+        progs.append(pre + 'class A{' + ''.join(('m%d(){return f(%d)}' % (k, k)) if k % 3 else ('static s%d=f(%d);' % (k, k)) for k in ks) + '}out(new A().m1(),A.s3)')
+        progs.append(pre + 'var[' + ','.join('b%d' % k for k in ks) + ']=[' + ','.join('f(%d)' % k for k in ks) + '];out(b1,b%d)' % n)
+        progs.append(pre + 'var{' + ','.join('p%d:c%d=f(%d)' % (k, k, k) for k in ks) + '}={p2:0};out(c1,c2,c%d)' % n)
+        progs.append(pre + 'out(`' + ''.join('${f(%d)}-' % k for k in ks) + '`)')
+        progs.append(pre + 'function t(){' + ''.join('var v%d=f(%d);' % (k, k) if k % 2 else 'v%d=f(%d);' % (k - 1, k) for k in ks) + 'return v1}out(t())')
+        progs.append(pre + 'function t(){' + ''.join('try{f(%d)}catch(e%d){f(-%d)}' % (k, k, k) for k in ks[:13]) + '}t()')
+    seen = set()
+    out = []
+    for q in progs:
+        if q not in seen:
+            seen.add(q)
+            out.append(q)
+    return out
+
+
+# ===================================================================================================
+# `with` next to renaming: renaming must stay off for everything a with body can see.  An expression-bodied arrow (or other
+# construct that switches renaming on for its own body) BEFORE a block scope whose binding is read inside a with body; the
+# with-object has properties named like the binding AND like the first short names the renamer hands out.
+def with_programs(ctx):
+    short = 'etnsoiarcl'
+    objprops = ','.join('%s:"%s!"' % (c, c) for c in short)
+    arrows = ['', 'var h=x=>x+1;', 'var h=()=>{return 1};', 'var h=(x,y)=>x;h(x=>x);', 'var h=async x=>x;', 'var h=function(q){return q};',
+              'var h=x=>{out(x)};', 'var h=x=>y=>x+y;', '[1].map(x=>x);', 'var h={m:x=>x};', 'var h=(x=>x)(1);', 'class K{m(){return 1}}',
+              'var h=x=>({a:x});']
+    scopes = [
+        'for(let item of o.items)with(o)out(item)',
+        'for(const item of o.items){with(o){out(item)}}',
+        'for(let item in o)with(o){out(item);break}',
+        'for(let item=0;item<2;item++)with(o)out(item)',
+        '{let item=o.items[0];with(o)out(item)}',
+        '{const item=5;with(o)out(item,typeof item)}',
+        'try{throw 7}catch(item){with(o)out(item)}',
+        'switch(1){case 1:let item=3;with(o)out(item)}',
+        '{let item=1;{let inner=2;with(o)out(item,inner)}}',
+        'for(let item of o.items){let g=function(){with(o)return item};out(g())}',
+        'for(let item of o.items){with(o)out(item);let h2=y=>y;with(o)out(item,h2(1))}',
+        'if(o){let item=4;with(o)out(item)}',
+        '{class item{};with(o)out(typeof item)}',
+        '{function item(){}with(o)out(typeof item)}',
+    ]
+    progs = []
+    for variant in (0, 1, 2):
+        for sc in scopes:
+            for ar in arrows:
+                if ctx.quick() and ctx.rnd.random() > 0.3 and ar not in ('var h=x=>x+1;', 'var h=()=>{return 1};'):
+                    continue
+                oo = 'var o={items:[1,2],%s};' % objprops if variant != 1 else 'var o={items:[1,2],item:"ITEM",inner:"INNER",%s};' % objprops
+                body = ar + sc
+                if variant == 2:
+                    progs.append(oo + 'function t(p){' + body + '}t(1)')
+                    progs.append(oo + 'function t(p){' + sc + ';' + ar + '}t(1)')
+                else:
+                    progs.append(oo + body)
+    seen = set()
+    out = []
+    for q in progs:
+        if q not in seen:
+            seen.add(q)
+            out.append(q)
+    return out
+
+
 def families(ctx, exe):
     quick = ctx.quick()
     rnd = ctx.rnd
@@ -3588,5 +3711,7 @@ def families(ctx, exe):
     fams.append(dict(name='literals', sources=literal_programs(ctx), nenv=1, probe=1, batched=True))
     fams.append(dict(name='asi', sources=some(asi_programs(ctx), 0.09), nenv=3 if quick else 5, probe=1))
     fams.append(dict(name='nesting', sources=nesting_programs(ctx), nenv=1, probe=0))
+    fams.append(dict(name='scaling', sources=scaling_programs(ctx), nenv=1, probe=0))
+    fams.append(dict(name='with', sources=with_programs(ctx), nenv=1, probe=0))
     fams.append(dict(name='corpus', sources=corpus_programs(ctx), nenv=3 if quick else 4, probe=1))
     return fams
